@@ -4,7 +4,7 @@ from .common import Scenario, MAX
 
 ALL_SHAPES = ["One", "Two", "Flat4", "Heap", "DrH", "DrN", "DrP", "NFirst", "NFirstF", "NMid", "NMidF",
               "NLast", "NLastF", "Deep", "DeepF"]
-NOCLONE = {"DrH", "DrN", "DrP"}
+NOCLONE = set()   # (the Drop shapes had no Clone API before /repo 72750cf)
 DROP_SHAPES = ["DrH", "DrN", "DrP"]
 TWINS = [("NFirst", "NFirstF"), ("NMid", "NMidF"), ("NLast", "NLastF"), ("Deep", "DeepF")]
 NLEAVES = {"DrP": 2, "One": 1, "Two": 2, "Flat4": 4, "Heap": 2, "DrH": 2, "DrN": 3, "NFirst": 3, "NFirstF": 3,
